@@ -210,6 +210,18 @@ def ld_table():
     return v
 
 
+def ld_fmod_table():
+    """long double operands for fmod / remainder: (cls, sign, mantissa, exponent) like ld_table; moderate exponent
+    gaps (the extracted model walks one binade per iteration)"""
+    v = []
+    for s in (0, 1):
+        v += [(0, s, 0, 0), (2, s, 0, 0)]
+        for m, e in [(5, 0), (3, 0), (1, 0), (1, -1), (11, -1), (7, -2), ((1 << 64) - 1, 0), ((1 << 64) - 1, -30), ((1 << 63) + 1, -63),
+                     (1, 64), (3, 40), (0x123456789ABCDEF1, -70), (1, -16445), (3, -16445), (5, -16444)]:
+            v.append((1, s, m, e))
+    return v
+
+
 def tables():
     rng = random.Random(20260926)
     t = {}
@@ -229,6 +241,7 @@ def tables():
     t["fmod32"], t["fmod64"] = fmd["f32"], fmd["f64"]
     t["str"] = string_table(rng)
     t["ld"] = ld_table()
+    t["ldfm"] = ld_fmod_table()
     # inputs of the single-path samples
     t["days"] = uniq([0, 1, -1, 59, 60, 365, 366, 10957, 11016, 11017, 19000, 20000, -719468, -719469, 2932896, -12687428,
                       11248737, 146096, 146097, -146097, -146098] + [rng.randint(-12687428, 11248737) for _ in range(40)])
@@ -287,6 +300,10 @@ def render(t):
     L.append("struct ld_rep { int cls; int sign; unsigned long long m; int e; };")
     L.append("inline constexpr ld_rep T_LD[] = {")
     for (c, s, m, e) in t["ld"]:
+        L.append(f"    {{{c}, {s}, {m}ULL, {e}}},")
+    L.append("};")
+    L.append("inline constexpr ld_rep T_LDFM[] = {")
+    for (c, s, m, e) in t["ldfm"]:
         L.append(f"    {{{c}, {s}, {m}ULL, {e}}},")
     L.append("};")
     return "\n".join(L) + "\n"
